@@ -34,9 +34,16 @@ def load_module(prop: str):
 def run_once(prop: str, tier: str, overlay=None, known=None):
     mod = load_module(prop)
     ctx = Ctx(prop, tier, SourceTree(overlay=overlay), known=known)
-    mod.check(ctx)
+    try:
+        mod.check(ctx)
+    except AnalysisError as e:
+        if not ctx.unlisted():
+            raise
+        ctx.errors.append(str(e))
     if not ctx.obligations:
         raise AnalysisError(f"{prop}: the rules generated no obligation at all (vacuous run)")
+    if ctx.errors and not ctx.unlisted():
+        raise AnalysisError("; ".join(ctx.errors))
     return mod, ctx
 
 
@@ -138,9 +145,16 @@ def main(argv=None) -> int:
         return 2
     ctx = Ctx(prop, args.tier, SourceTree(), known=known)
     try:
-        mod.check(ctx)
+        try:
+            mod.check(ctx)
+        except AnalysisError as e:
+            if not ctx.unlisted():
+                raise
+            ctx.errors.append(str(e))  # a positive violation was already established: report it
         if not ctx.obligations:
             raise AnalysisError(f"{prop}: the rules generated no obligation at all (vacuous run)")
+        if ctx.errors and not ctx.unlisted():
+            raise AnalysisError("; ".join(ctx.errors))
     except AnalysisError as e:
         print(f"ANALYSIS-ERROR property={prop} {e}")
         if not args.no_evidence and not replay:
@@ -184,6 +198,8 @@ def main(argv=None) -> int:
     for f, p in zip(unlisted, paths):
         print(f"VIOLATION property={prop} replay={p}")
         print(f"  rule={f.rule}\n  construct={f.construct}\n  fails={f.fails}" + (f"\n  witness={f.witness}" if f.witness else ""))
+    for e in ctx.errors:
+        print(f"ANALYSIS-NOTE property={prop} part of the analysis could not read the code: {e}")
     if st is not None:
         print(f"{prop} selftest: mutants {st.get('mutants_detected', 0)}/{st.get('mutants_evaluated', 0)} detected "
               f"({st.get('mutants_not_applicable', 0)} not applicable), silent variants {st.get('silent_ok', 0)}/{st.get('silent_evaluated', 0)} silent")
